@@ -922,7 +922,10 @@ class World:
                 self.vio('sites-not-in-visit-order', {'sites': repr(order)[:200]}, strategy=name)
         # `within` narrows the listing to what lies at or beneath it
         if op.get('within') is not None and self.cursors:
-            rec = self.cursors[op['within'] % len(self.cursors)]
+            # two times out of three a cursor of this very program when there is one (the exact rule below)
+            own = [x for x in self.cursors if self.canon(x['node']) == self.canon(ni) and x['kind'] != 'expr']
+            pool = own if own and op['within'] % 3 else self.cursors
+            rec = pool[op['within'] % len(pool)]
             if rec['kind'] == 'expr' and name not in EXPR_SITED:
                 return
             model = self.model_image(rec, ni)
@@ -940,6 +943,17 @@ class World:
             for c in ws:
                 if repr(cursor_pos(c)) not in full:
                     self.vio('within-lists-a-non-site', {'got': repr(cursor_pos(c))}, strategy=name)
+            # a cursor of this very program names exactly the candidates at or beneath it (a candidate of
+            # several statements only when all of them are)
+            if rec['kind'] != 'expr' and self.canon(rec['node']) == self.canon(ni):
+                members = rec['paths']
+                self.stats.count('ops', 'list-within-exact')
+                want_in = [repr(cursor_pos(c)) for c in sites
+                           if all(any(beneath_or_at(p, mp) for mp in members) for p in site_stmt_paths(c))]
+                got_in = [repr(cursor_pos(c)) for c in ws]
+                if sorted(want_in) != sorted(got_in):
+                    self.vio('within-not-the-sites-at-or-beneath', {'region': repr(members)[:200], 'expected': want_in[:6], 'got': got_in[:6]},
+                             strategy=name)
 
     def run(self):
         for op in self.hist['ops']:
